@@ -86,8 +86,10 @@ func addr[T any](v T) *T {
 }
 
 func NewDefaultKoanf(ctx context.Context) (*koanf.Koanf, error) {
+	// Maps must not be nil here: koanf merges the config file's maps into these.
 	c := Config{
 		All:                         addr(false),
+		Anchors:                     map[string]any{},
 		Dir:                         addr("{{.InterfaceDir}}"),
 		FileName:                    addr("mocks_test.go"),
 		ForceFileWrite:              addr(false),
